@@ -16,6 +16,7 @@ import TracingModel.Core.FilteringDriver
 import TracingModel.Core.NotifyDriver
 import TracingModel.Core.ReloadDriver
 import TracingModel.Core.RegRaceDriver
+import TracingModel.Core.WritersDriver
 
 open TM TM.Wire
 
@@ -65,6 +66,8 @@ def dispatch (prop mode : String) : Option (List String → String) :=
   | "C09", "modelfilt" => some FilteringDriver.model
   | "C09", "specfilt" => some FilteringDriver.spec
   | "C08", "model" => some DirectiveDriver.model2
+  | "C13", "model" => some WritersDriver.model
+  | "C13", "spec" => some WritersDriver.spec
   | "C12", "model" => some ReloadDriver.model
   | "C12", "spec" => some ReloadDriver.spec
   | "C11", "model" => some DirectiveDriver.model
